@@ -89,6 +89,28 @@ def run(ctx):
                     ctx.fail("raise-without-rejection", inp, "same as IGNORE", str(rs["raised"]))
 
     capped(ctx, rng, streams)
+    logging_setups(ctx, rng, streams)
+
+
+def logging_setups(ctx, rng, streams):
+    """The error handler is the application's: it must be called whatever the logging configuration is (library
+    logger silenced, logging disabled process-wide)."""
+    rl.install()
+    try:
+        n = 0
+        for s in streams[: (40 if ctx.quick() else 400)]:
+            ref = rl.run_reader(s, 7, 1, True, 1, 0, True)
+            for cfg in ("critical", "disabled"):
+                for hk in (True, "obj"):
+                    o = rl.run_reader(s, 7, 1, True, 1, 0, hk, logcfg=cfg)
+                    n += 1
+                    if o["reports"] != ref["reports"] or rp.items_key(o["items"]) != rp.items_key(ref["items"]):
+                        ctx.fail("handler-depends-on-logging-setup", {"op": "READ-LOGCFG", "stream": s.hex(), "logging": cfg, "handler": str(hk)},
+                                 str(ref["reports"])[:200], str(o["reports"])[:200])
+        ctx.evaluations += n
+        ctx.count("logging_setup_runs", n)
+    finally:
+        rl.uninstall()
 
 
 def capped(ctx, rng, streams):
